@@ -8,12 +8,13 @@ import numpy as np
 import numlib as nl
 
 ID = "C15"
-MODULES = ["Series", "Ctrl", "Ref", "RefP"]
+MODULES = ["Series", "SO2", "SE2", "Rn", "SO3", "Ctrl", "Ref", "RefP"]
 LEAN_TARGETS = ["Props.C15"]
 ANCHORS = ["cyecca/models/rdd2.py", "cyecca/models/rdd2_loglinear.py"]
 MISSING = [
     "auto-level stick map bounds as theorems — numeric search only",
-    "attitude law 'reaches the reference' (R(q) exp(omega^) = R(q_r)) composes C03 (log) with C02 (exp): theorem for the closed-form cell not assembled — numeric search",
+    "attitude law 'reaches the reference': theorem for rdd2.attitude_control on the closed-form cells with unit gains; Taylor cells, the error angle pi, and the "
+    "so3 / SE_2(3) log-linear attitude laws — numeric search",
 ]
 M_VEH, G = 2.24, 9.8
 
